@@ -299,3 +299,39 @@ pub(crate) fn wait_hook(running: usize) {
         }
     }
 }
+
+// ---- terminal replacement for the fancy progress display (feature "verif" only) ----
+// `capture_frame` installs a fixed terminal width and a sink for what `print_progress` would
+// write to stdout; outside of it both hooks are transparent (real ioctl, real stdout).
+
+thread_local! {
+    static FRAME_COLS: std::cell::Cell<Option<Option<usize>>> = const { std::cell::Cell::new(None) };
+    static FRAME_SINK: std::cell::RefCell<Option<Vec<u8>>> = const { std::cell::RefCell::new(None) };
+}
+
+/// `Some(width)` while a frame capture is active on this thread (`width` = what `get_cols` answers).
+pub fn cols_override() -> Option<Option<usize>> {
+    FRAME_COLS.with(|c| c.get())
+}
+
+/// Takes the bytes `print_progress` is about to write to stdout when a capture is active;
+/// returns false (nothing consumed) otherwise.
+pub fn frame_sink(buf: &[u8]) -> bool {
+    FRAME_SINK.with(|s| match s.borrow_mut().as_mut() {
+        Some(v) => {
+            v.extend_from_slice(buf);
+            true
+        }
+        None => false,
+    })
+}
+
+/// Runs `f` with the terminal replaced: `get_cols()` answers `cols`, stdout writes of the
+/// progress display are collected and returned.
+pub fn capture_frame(cols: Option<usize>, f: impl FnOnce()) -> Vec<u8> {
+    FRAME_COLS.with(|c| c.set(Some(cols)));
+    FRAME_SINK.with(|s| *s.borrow_mut() = Some(Vec::new()));
+    f();
+    FRAME_COLS.with(|c| c.set(None));
+    FRAME_SINK.with(|s| s.borrow_mut().take()).unwrap_or_default()
+}
